@@ -179,6 +179,32 @@ def shard_main(argv):
         json.dump(sh.to_json(), f, default=str)
 
 
+CHILDREN = []
+TMPDIRS = []
+
+
+def kill_tree(proc):
+    """Shards run in their own session: kill the whole group (the shard, its forked cases, COMA's pool workers)."""
+    import signal
+    try:
+        os.killpg(proc.pid, signal.SIGKILL)
+    except Exception:
+        pass
+    try:
+        proc.kill()
+        proc.communicate(timeout=10)
+    except Exception:
+        pass
+
+
+def on_terminate(signum, frame):
+    for p in list(CHILDREN):
+        kill_tree(p)
+    for d in TMPDIRS:
+        shutil.rmtree(d, ignore_errors=True)
+    os._exit(128 + signum)
+
+
 def _run_one(pid, spec, tmp, timeout):
     name = spec.get('name', h64(spec))
     sf = os.path.join(tmp, name + '.spec.json')
@@ -190,18 +216,23 @@ def _run_one(pid, spec, tmp, timeout):
     env = dict(os.environ, PYTHONHASHSEED='0', PYTHONPATH=VERIF, COMA_REPO=REPO, COMA_VERIF='1',
                OMP_NUM_THREADS='1', OPENBLAS_NUM_THREADS='1', MKL_NUM_THREADS='1')
     t = time.time()
+    proc = subprocess.Popen([PY, '-X', 'faulthandler', '-m', 'vf.shard', pid, sf, of], cwd=VERIF, env=env,
+                            stdout=subprocess.PIPE, stderr=subprocess.STDOUT, start_new_session=True)
+    CHILDREN.append(proc)
     try:
-        p = subprocess.run([PY, '-X', 'faulthandler', '-m', 'vf.shard', pid, sf, of], cwd=VERIF, env=env,
-                           stdout=subprocess.PIPE, stderr=subprocess.STDOUT, timeout=timeout)
-        out = p.stdout.decode(errors='replace')
+        out = proc.communicate(timeout=timeout)[0].decode(errors='replace')
         if os.path.exists(of):
             r = json.load(open(of))
         else:
             r = Shard().to_json()
-            r['inconclusive'].append('shard %s died (exit %s): %s' % (name, p.returncode, out[-1500:]))
+            r['inconclusive'].append('shard %s died (exit %s): %s' % (name, proc.returncode, out[-1500:]))
     except subprocess.TimeoutExpired:
+        kill_tree(proc)
         r = Shard().to_json()
         r['inconclusive'].append('shard %s hit the %ss wall-clock watchdog' % (name, timeout))
+    finally:
+        if proc in CHILDREN:
+            CHILDREN.remove(proc)
     r['wall'] = time.time() - t
     r['name'] = name
     shutil.rmtree(wd, ignore_errors=True)
@@ -220,6 +251,7 @@ def run_check(pid, tier, seed, jobs=None):
     jobs = jobs or int(os.environ.get('VERIF_JOBS', '16'))
     timeout = int(os.environ.get('VERIF_SHARD_TIMEOUT', '1500' if tier == 'quick' else '5400'))
     tmp = tempfile.mkdtemp(prefix='vf_%s_' % pid)
+    TMPDIRS.append(tmp)
     try:
         with ThreadPoolExecutor(max_workers=jobs) as ex:
             results = list(ex.map(lambda s: _run_one(pid, s, tmp, timeout), specs))
